@@ -305,6 +305,21 @@ fn compile_match_arms_to_anf<'a>(
     })
 }
 
+/// Conservative: true only for expressions whose evaluation can neither have an
+/// observable effect nor fail (no calls, no division, no control flow).
+fn is_effect_free(e: &LiftExpr) -> bool {
+    match e {
+        LiftExpr::EVar { .. } | LiftExpr::EPrim { .. } => true,
+        LiftExpr::EUnary { expr, .. } => is_effect_free(expr),
+        LiftExpr::EBinary { op, lhs, rhs, .. } => {
+            !matches!(op, common_defs::BinaryOp::Div) && is_effect_free(lhs) && is_effect_free(rhs)
+        }
+        LiftExpr::EProj { tuple, .. } => is_effect_free(tuple),
+        LiftExpr::ETuple { items, .. } => items.iter().all(is_effect_free),
+        _ => false,
+    }
+}
+
 fn anf<'a>(
     anfenv: &'a GlobalAnfEnv,
     gensym: &'a Gensym,
@@ -503,6 +518,37 @@ fn anf<'a>(
                         ty: e_ty,
                     })
                 }),
+            )
+        }
+        // `&&` / `||` are short-circuit: the right operand must only be evaluated when the
+        // left one does not decide the result. ANF would otherwise let-bind both operands
+        // first, so an operand that can have an effect (or fail) is compiled as a branch.
+        LiftExpr::EBinary {
+            op: op @ (common_defs::BinaryOp::And | common_defs::BinaryOp::Or),
+            lhs,
+            rhs,
+            ty,
+        } if !is_effect_free(&rhs) => {
+            let literal = |value: bool| {
+                Box::new(LiftExpr::EPrim {
+                    value: Prim::boolean(value),
+                    ty: Ty::TBool,
+                })
+            };
+            let (then_branch, else_branch) = match op {
+                common_defs::BinaryOp::And => (rhs, literal(false)),
+                _ => (literal(true), rhs),
+            };
+            anf(
+                anfenv,
+                gensym,
+                LiftExpr::EIf {
+                    cond: lhs,
+                    then_branch,
+                    else_branch,
+                    ty,
+                },
+                k,
             )
         }
         LiftExpr::EBinary {
